@@ -47,6 +47,11 @@ def index_bound_violations(func):
         if not isinstance(w, ast.While):
             continue
         conds = w.test.values if (isinstance(w.test, ast.BoolOp) and isinstance(w.test.op, ast.And)) else [w.test]
+        unguarded = []
+        if isinstance(w.test, ast.BoolOp) and isinstance(w.test.op, ast.Or):
+            # `a or j < len(xs)`: the bound does not stop the loop while a holds
+            conds = w.test.values
+            unguarded = conds
         for c in conds:
             if not (isinstance(c, ast.Compare) and len(c.ops) == 1):
                 continue
@@ -60,4 +65,6 @@ def index_bound_violations(func):
             reads = [x for st in w.body for x in ast.walk(st) if isinstance(x, ast.Subscript) and isinstance(x.slice, ast.Name) and x.slice.id == l.id and ast.unparse(x.value) == seq]
             if reads and isinstance(op, ast.LtE):
                 out.append((c.lineno, '%s[%s] is read while %s' % (seq, l.id, ast.unparse(c))))
+            elif reads and isinstance(op, ast.Lt) and unguarded:
+                out.append((c.lineno, '%s[%s] is read while (%s): the bound is only one alternative of an `or`' % (seq, l.id, ast.unparse(w.test))))
     return out
